@@ -24,8 +24,13 @@ MASTER_PARTS = [
     "!off = 1\n  .type = int\n",
     "d.e.f = 2\n  .type = int\n  .expert_level = 2\n",
     "dep = 1\n  .type = int\n  .deprecated = True\n",
+    "an = 2\n  .type = int(allow_none=False)\n",
+    "fl = 0.5\n  .type = float(value_min=0, allow_none=False)\n",
+    "pr = 1 2\n  .type = ints(size=2, allow_none_elements=True)\n",
+    "fs = 1.5 2.5\n  .type = floats(size_max=3, value_max=10)\n",
 ]
 SOURCE_PARTS = [
+    "an = None\n", "fl = None\n", "pr = None 3\n", "fs = 1 2 3\n", "an = 7\n",
     "a = 5\n", "a = 2\na = 7\n", "b = hello world\n", "flag = no\n", "c = q\n", "c = *r\n", "cm = p+r\n", "cm = None\n", "n = 4 5\n", "n = [7,8,9]\n",
     "w = other words\n", "ss = x y\n", "m = one\nm = two\n", "m = one\n", "s.x = 9\n", "s { y = text\n t { z = yes } }\n", "s.t.z = True\n",
     "ms { k = 1 }\nms { k = 2\n l = a b }\n", "ms { k = 1 }\n", "unknown = 1\n", "s.unknown = 2\n", "!a = 99\n", "d.e.f = 5\n", "dep = 3\n",
@@ -206,13 +211,20 @@ class Histories(Stream):
                     p = self.check_links(cp, orig)
                     if p:
                         problems.append("%s copy of %s: %s" % (op, key, p))
-                    try:
-                        a = json.dumps(canon(objs_sx(master.fetch(sources=[cp] if key != "master" else [])))) if key != "master" else None
-                        b = json.dumps(canon(objs_sx(master.fetch(sources=[orig])))) if key != "master" else None
-                        if a != b:
-                            problems.append("%s copy of %s behaves differently in fetch" % (op, key))
-                    except Exception:  # noqa
-                        pass
+                    def behaviour(m, srcs):
+                        def f():
+                            r = m.fetch(sources=srcs)
+                            return [json.dumps(canon(objs_sx(r))), json.dumps(dump_extract(r.extract()))]
+                        return safe(f)
+                    if key == "master":
+                        a, b = behaviour(cp, sources), behaviour(master, sources)
+                        for s1 in sources:
+                            if behaviour(cp, [s1]) != behaviour(master, [s1]):
+                                a = None
+                    else:
+                        a, b = behaviour(master, [cp]), behaviour(master, [orig])
+                    if a != b:
+                        problems.append("%s copy of %s behaves differently in fetch/extract" % (op, key))
                 elif op == "deep_edit":
                     key = rr.choice(sorted(longlived))
                     cp = copy.deepcopy(longlived[key])
